@@ -37,13 +37,13 @@ class Contract:
         self.requires = kw.pop("requires", [])
         self.ensures = kw.pop("ensures", [])
         self.raises = kw.pop("raises", {})          # class name -> condition over the pre-state ("True" = may always)
-        self.raises_ensures = kw.pop("raises_ensures", {})  # class name -> [post-state conditions on raise]
+        self.raises_ensures = kw.pop("raises_ensures", [])  # conditions that hold in the post-state of every raising exit
         self.decreases = kw.pop("decreases", None)
         self.loops = kw.pop("loops", {})
         self.assigns = kw.pop("assigns", [])        # [] = pure (no heap change visible to callers)
         self.result = kw.pop("result", "V")         # kind of result term
         self.ghost = kw.pop("ghost", {})
-        self.lemmas = kw.pop("lemmas", [])          # names of lemma instances to assume at entry (must be proved)
+        self.uses = kw.pop("uses", [])              # lemma instances: dict(after=<statement header>, lemma=name, args=[exprs])
         self.prop = kw.pop("prop", None)
         self.attrs = kw.pop("attrs", "assume")      # "assume": attribute reads on objects never raise; "check"
         self.opts = kw
@@ -64,7 +64,8 @@ def contract(file, func, **kw):
 
 
 class SpecFn:
-    def __init__(self, fn, heap=True, opaque=False, axioms=None):
+    def __init__(self, fn, heap=True, opaque=False, axioms=None, hide=False):
+        self.hide = hide              # uninterpreted in ordinary obligations; revealed (inlined) inside lemmas
         self.fn = fn
         self.name = fn.__name__
         self.heap = heap
@@ -168,3 +169,11 @@ def startswith(a, b): return a.startswith(b)
 def endswith(a, b): return a.endswith(b)
 def str_contains(a, b): return b in a
 def str_find(a, b): return a.find(b)
+
+
+def norm_abs(p): return True
+def normpath_axiom(b, c, r): return True
+def re_search_lit(pat, s): return _re.search(pat, s) is not None
+def abspath_of(p):
+    import os
+    return os.path.abspath(p)
